@@ -762,7 +762,7 @@ func (x *Exec) loopClauses(ord int, kind string) []*Clause {
 	var out []*Clause
 	for _, cl := range fr.con.Clauses {
 		if cl.Kind == "loop:"+kind && cl.Loop == ord {
-			if len(cl.Props) > 0 && x.v.curProp != "" && !hasProp(cl.Props, x.v.curProp) && (kind == "invariant" || kind == "after") {
+			if len(cl.Props) > 0 && x.v.curProp != "" && !hasAnyProp(cl.Props, x.v.curProps) && (kind == "invariant" || kind == "after") {
 				continue // clause belongs to another property: neither assumed nor checked in this run
 			}
 			out = append(out, cl)
